@@ -159,6 +159,7 @@ let () =
   iter_cases (fun id c ->
     let r = List.hd (args (field "res" c)) in
     let obs = field "obs" c in
+    let kind = atom (arg0 "kind" c) in
     match tag r with
     | "burndown" ->
         let b = burndown_of_sx r in
@@ -170,10 +171,11 @@ let () =
           ~res_of_sx:burndown_of_sx ~in_domain:shape ~expected ~diff:bd_diff
           ~classify:(fun got ->
             let d = bd_diff expected got in
-            if d = "reversedPeopleDict" && List.length b.bd_names > List.length b.bd_people then
+            (* the two known deviations are recognised only in the generator streams dedicated to them *)
+            if kind = "bd-loaded-dict" && d = "reversedPeopleDict" && List.length b.bd_names > List.length b.bd_people then
               "developer names beyond PeopleHistories are dropped by the round trip (reversedPeopleDict longer than PeopleHistories, e.g. the <unmatched> entry of a loaded people dictionary)"
-            else if d = "FileOwnership" && not aligned then
-              "a file history without an ownership table comes back with an empty table (file tracked on another head only)"
+            else if kind = "bd-no-ownership" && d = "FileOwnership" && not aligned then
+              "a file history without an ownership table comes back with an empty table (hand-made result; Finalize makes a table for every file history)"
             else "decoded result differs from the input beyond clamping in: " ^ d);
         (* text format *)
         let mt = text_burndown b in
